@@ -337,7 +337,7 @@ def write_replay(prop: str, payload: dict) -> str:
 def write_evidence(prop: str, tier: str, seed: int, coverage: dict, assumptions: list[str],
                    wall_s: float, violations: int):
     d = OUT / "evidence"
-    d.mkdir(exist_ok=True)
+    d.mkdir(parents=True, exist_ok=True)
     ev = {"property_id": prop, "tier": tier, "seed": seed, "level": "proof", "coverage": coverage,
           "assumptions": assumptions, "wall_s": round(wall_s, 2), "violations": violations}
     (d / f"{prop}.json").write_text(json.dumps(ev, indent=1, default=str) + "\n")
